@@ -659,7 +659,7 @@ func c11FinalCheck(x *c11Ctx, p *c11Prog, acked bool, nofault bool) string {
 			}
 		}
 	}
-	for k := range x.others {
+	for _, k := range sortedKeys(x.others) {
 		cl.Do(s3c.DeleteObject(x.bkt, k))
 	}
 	if x.versioned {
